@@ -79,6 +79,9 @@ def sources(tier, seed, ctx):
             pre = dict(s)
             pre.update({'mtt': pm, 'r': min(s['r'], 2), 'fix': [], 'forbid': [], 'time_limit': 0})
             s['prelude'] = pre
+    for j, s in enumerate(srcs):
+        if j % 4 == 2 and s['r'] >= 1 and not s['time_limit']:
+            s['again'] = 1 + j % 5
     ctx['gen_note'] = f'{len(srcs)} synthesis calls (a third of them after another finder ran in the same process)'
     return srcs
 
@@ -139,9 +142,36 @@ def _run(src):
         case['c'] = project(c)
     except NoSolutionError:
         case['result'] = 'nosolution'
+        return case
     except Exception as e:
         case['result'] = type(e).__name__
-    return case
+        return case
+    if not src.get('again') or src['r'] < 1 or src.get('probe'):
+        return case
+    # the SAME finder is constrained further and asked again: a wire the first answer uses is forbidden
+    # (node numbers = position in the returned circuit: inputs first, then the gates as added)
+    try:
+        order = case['c']['ord']
+        pos = {l: j for j, l in enumerate(order)}
+        g = src['n'] + (src.get('again', 1) - 1) % src['r']
+        ops = case['c']['g'][order[g]]['o']
+        a = pos[ops[(src.get('again', 1) // 2) % len(ops)]]
+    except Exception:
+        return case
+    # (the replay source is the original one: replaying it reproduces the whole history)
+    case2 = {'kind': 'synth', 'n': src['n'], 'm': src['m'], 'mtt': src['mtt'], 'r': src['r'], 'basis': src['basis'], 'norm': src['norm'],
+             'fix': src['fix'], 'forbid': list(src['forbid']) + [{'from': a, 'to': g}], 'result': '', 'src': src,
+             'history': 'second answer of one finder object after forbid_wire'}
+    try:
+        f.forbid_wire(a, g)
+        c2 = f.find_circuit(time_limit=src['time_limit'] or None)
+        case2['result'] = 'circuit'
+        case2['c'] = project(c2)
+    except NoSolutionError:
+        case2['result'] = 'nosolution'
+    except Exception as e:
+        case2['result'] = type(e).__name__
+    return [case, case2]
 
 
 def post_judge(cases, tier, seed):
